@@ -33,7 +33,8 @@ for sid, meta, res in rows:
     else:
         cell = ', '.join(f'**{p}: {v}**' if v else f'{p}: 0' for p, (v, n) in res.items())
         if not any(v for v, n in res.values()): miss.append(sid)
-    out.append(f"| {sid} | {meta['breaks_property']} | {meta['change']} | {meta['needs_to_manifest']} | {cell} |")
+    esc = lambda t: t.replace('|', '\\|').replace('\n', ' ')
+    out.append(f"| {sid} | {meta['breaks_property']} | {esc(meta['change'])} | {esc(meta['needs_to_manifest'])} | {cell} |")
 out += ['', f'{len(rows)} seeds; not caught by any quick check: {", ".join(miss) if miss else "none"}.']
 open('seeded/MATRIX.md', 'w').write('\n'.join(out) + '\n')
 print(len(rows), 'rows; missed:', miss)
